@@ -8,11 +8,11 @@ exceeds the count and is reported), `reason` (why the site cannot panic) and opt
 is void and the site is reported).
 """
 
-ENUM = "some(Iterator::next(var:core::iter::adapters::enumerate::Enumerate<*>)).0"
+ENUM = "some(Iterator::next(var:Enumerate<*>)).0"
 
 EXCEPTIONS = [
     # ---- builder ---------------------------------------------------------------------------
-    dict(fn="builder::SourceMapBuilder::set_source_contents", what="panic", desc='panicking::begin_panic("Cannot set sources for tombstone source id")', count=1,
+    dict(fn="builder::SourceMapBuilder::set_source_contents", what="panic", desc="panicking::begin_panic('Cannot set sources for tombstone source id')", count=1,
          reason="assert!(src_id != !0): every caller inside the crate passes the src_id of a token it just added under a guard that the token has a source (call-site rules C08.R3 / C09.R3); direct API misuse is outside C05's entry list",
          requires=["C08.R3", "C09.R3"]),
     dict(fn="builder::SourceMapBuilder::set_source_contents", what="index", desc="arg1.source_contents[cast<usize>(arg2)]", count=1,
@@ -33,10 +33,10 @@ EXCEPTIONS = [
     dict(fn="decoder::decode_rmi", what="bitstore", desc="BitField::store_le(arg2[Range{start:Mul(6,*),end:Mul(6,Add(1,*))}],var:u8)", count=1,
          reason="store_le::<u8> on a 6-bit slice: bitvec accepts 1..=8 bits for u8"),
     # ---- decoder: mappings --------------------------------------------------------------------
-    dict(fn="decoder::decode_regular", what="Overflow:Add:i64", desc="from<i64>(var:u32),var:alloc::vec::Vec<i64>[*]", count=5,
+    dict(fn="decoder::decode_regular", what="Overflow:Add:i64", desc="from<i64>(var:u32),var:Vec<i64>[*]", count=5,
          reason="the VLQ parser only produces values of magnitude < 2^63 after `cur >>= 1` (|v| <= 2^62), a widened u32 is < 2^32: the i64 sum cannot overflow",
          requires=["C11.R2r"]),
-    dict(fn="decoder::decode_regular", what="index", desc="var:alloc::vec::Vec<i64>[*]", count=3,
+    dict(fn="decoder::decode_regular", what="index", desc="var:Vec<i64>[*]", count=3,
          reason="nums[0]: parse_vlq_segment_into returns Ok only for a non-empty vector (C06.R3 ok:non-empty); nums[2], nums[3]: no path reads nums[k] with k >= len (value-partition reachability C06.R1)",
          requires=["C06.R1", "C06.R3"]),
     # ---- detector -------------------------------------------------------------------------------
@@ -45,20 +45,20 @@ EXCEPTIONS = [
     # ---- encoder ----------------------------------------------------------------------------------
     dict(fn="encoder::encode_rmi", what="index", desc="BitView::view_bits(arg2)[RangeTo{end:Add(1,var:usize)}]", count=1,
          reason="last is an enumerate() index over the bits of data, and encode_rmi is only called with the non-empty buffer a range bit was just written to (C07.R2), so last + 1 <= bits.len()", requires=["C07.R2"]),
-    dict(fn="encoder::encode_rmi", what="bitload", desc="BitField::load(some(Iterator::next(var:bitvec::slice::iter::Chunks<*>)))", count=1,
+    dict(fn="encoder::encode_rmi", what="bitload", desc="BitField::load(some(Iterator::next(var:Chunks<*>)))", count=1,
          reason="chunks(6) yields non-empty chunks of at most 6 bits; load::<u8> accepts 1..=8 bits"),
-    dict(fn="encoder::encode_rmi::encode_byte", what="panic", desc='panicking::begin_panic("invalid byte")', count=1,
+    dict(fn="encoder::encode_rmi::encode_byte", what="panic", desc="panicking::begin_panic('invalid byte')", count=1,
          reason="the argument is a load of at most 6 bits (< 64); the match covers 0..=63 (C07.R6 checks the table over all 256 values)", requires=["C07.R6"]),
     dict(fn="encoder::serialize_range_mappings", what="Overflow:Add:u32", desc="var:u32,1", count=1,
          reason="prev_line is advanced only while it differs from the token's line; tokens are ordered by line (C04.R1/R2), so prev_line < token line <= u32::MAX", requires=["C04.R1", "C04.R2"]),
-    dict(fn="encoder::serialize_range_mappings", what="bitset", desc="BitSlice::set(BitView::view_bits_mut(var:alloc::vec::Vec<u8>),var:usize,1)", count=1,
+    dict(fn="encoder::serialize_range_mappings", what="bitset", desc="BitSlice::set(BitView::view_bits_mut(var:Vec<u8>),var:usize,1)", count=1,
          reason="the byte buffer is grown to num / 8 + 1 bytes right before the bit num is set (C07.R2)", requires=["C07.R2"]),
-    dict(fn="encoder::serialize_range_mappings", what="unwrap", desc='Result::expect(String::from_utf8(var:alloc::vec::Vec<u8>),"invalid utf8")', count=1,
+    dict(fn="encoder::serialize_range_mappings", what="unwrap", desc="Result::expect(String::from_utf8(var:Vec<u8>),'invalid utf8')", count=1,
          reason="buf only ever receives b';' and bytes returned by encode_byte (ASCII base64 digits)", requires=["C07.R6"]),
     dict(fn="encoder::serialize_mappings", what="Overflow:Add:u32", desc="var:u32,1", count=1,
          reason="prev_dst_line is advanced only while it differs from the token's line; tokens are ordered (C04.R1/R2)", requires=["C04.R1", "C04.R2"]),
     # ---- hermes -------------------------------------------------------------------------------------
-    dict(fn="hermes::decode_hermes::{closure#0}", what="Overflow:Add:i64", desc="from<i64>(var:u32),*Iterator::next(var:core::iter::adapters::copied::Copied<core::slice::iter::Iter<'_, i64>>)*", count=3,
+    dict(fn="hermes::decode_hermes::{closure#0}", what="Overflow:Add:i64", desc="from<i64>(var:u32),*Iterator::next(var:Copied<Iter<i64>>)*", count=3,
          reason="VLQ values have magnitude <= 2^62 (reader shape, C11.R2r); a widened u32 is < 2^32", requires=["C11.R2r"]),
     # ---- js identifiers ---------------------------------------------------------------------------------
     dict(fn="js_identifiers::strip_identifier", what="index", desc="arg1[RangeTo{end:var:usize}]", count=1,
@@ -69,7 +69,7 @@ EXCEPTIONS = [
          reason="the cached column belongs to a token later in the sorted token list on the same line (the cache is reused only under dst_line equality), so it is >= this token's column (C04.R1-R3, C17.R2)",
          requires=["C04.R1", "C04.R2", "C17.R2"]),
     dict(fn="<sourceview::RevTokenIter<'view, 'map> as core::iter::traits::iterator::Iterator>::next", what="Overflow:Sub:usize",
-         desc="var:usize,char::len_utf8(some(Iterator::next(var:core::iter::adapters::rev::Rev<core::str::iter::Chars<'_>>)))", count=1,
+         desc="var:usize,char::len_utf8(some(Iterator::next(var:Rev<Chars>)))", count=1,
          reason="new_offset starts at last_byte_offset and the chars walked are exactly those of line[..last_byte_offset]; their lengths sum to at most last_byte_offset", requires=["C17.R2"]),
     dict(fn="<sourceview::Lines<'a> as core::iter::traits::iterator::Iterator>::next", what="Overflow:Add:u32", desc="arg1.idx,1", count=1,
          reason="idx is incremented only after get_line(idx) returned a line; a text has fewer than 2^32 lines (assumption: inputs below 4 GiB)"),
@@ -98,7 +98,7 @@ EXCEPTIONS = [
     dict(fn="<types::SourceMapSectionIter<'a> as core::iter::traits::iterator::Iterator>::next::{closure#0}", what="Overflow:Add:u32", desc="upvar:self.next_idx,1", count=1,
          reason="incremented only after get_section(next_idx) returned Some; fewer than 2^32 - 1 sections"),
     # ---- lookups --------------------------------------------------------------------------------------------------
-    dict(fn="types::SourceMap::lookup_token", what="Overflow:Sub:u32", desc="arg3,Token::get_dst_col(var:types::Token<'_>)", count=1,
+    dict(fn="types::SourceMap::lookup_token", what="Overflow:Sub:u32", desc="arg3,Token::get_dst_col(var:Token)", count=1,
          reason="greatest_lower_bound returns a token with (dst_line, dst_col) <= (line, col) lexicographically (C04.R3/R4); under the dominating guard dst_line == line (C07.R4) this gives dst_col <= col",
          requires=["C04.R3", "C04.R4", "C07.R4"]),
     dict(fn="types::SourceMapIndex::lookup_token", what="Overflow:Sub:u32", desc="arg2,SourceMapSection::get_offset(*).0", count=1,
@@ -106,13 +106,13 @@ EXCEPTIONS = [
     dict(fn="types::SourceMapIndex::lookup_token", what="Overflow:Sub:u32", desc="arg3,SourceMapSection::get_offset(*).1", count=1,
          reason="evaluated only on the line == off_line branch (C08.R1), where the lexicographic bound gives off_col <= col", requires=["C04.R4", "C08.R1"]),
     # ---- utils ------------------------------------------------------------------------------------------------------
-    dict(fn="utils::split_path", what="index", desc="arg1[Range{start:var:usize,end:some(Iterator::next(var:core::str::iter::MatchIndices<*>)).0}]", count=1,
+    dict(fn="utils::split_path", what="index", desc="arg1[Range{start:var:usize,end:some(Iterator::next(var:MatchIndices<*>)).0}]", count=1,
          reason="last_idx is 0 or an earlier match index, idx is a later match index of the same string: both are char boundaries with last_idx <= idx <= len"),
     dict(fn="utils::split_path", what="index", desc="arg1[RangeFrom{start:var:usize}]", count=1,
          reason="last_idx is 0 or a match index (< len, char boundary)"),
-    dict(fn="utils::find_common_prefix_of_sorted_vec", what="index", desc="arg1[0][RangeToInclusive{end:some(var:core::option::Option<usize>)}]", count=1,
+    dict(fn="utils::find_common_prefix_of_sorted_vec", what="index", desc="arg1[0][RangeToInclusive{end:some(var:Option<usize>)}]", count=1,
          reason="max_idx is an enumerate() index over `shortest` = items[0] (the slice being indexed)"),
-    dict(fn="utils::greatest_lower_bound", what="Bounds", desc="PtrMetadata(arg1)[some(Iterator::next(var:core::iter::adapters::rev::Rev<core::ops::range::Range<usize>>))]", count=1,
+    dict(fn="utils::greatest_lower_bound", what="Bounds", desc="PtrMetadata(arg1)[some(Iterator::next(var:Rev<Range<usize>>))]", count=1,
          reason="i ranges over 0..idx where idx is the Ok index of binary_search (< len)", requires=["C04.R4"]),
     # ---- vlq -----------------------------------------------------------------------------------------------------------
     dict(fn="vlq::parse_vlq_segment_into", what="Overflow:Add:i64", desc="var:i64,try(Option::ok_or(i64::checked_shl(BitAnd(31,*),var:u32),Error::VlqOverflow{}))", count=1,
@@ -125,7 +125,7 @@ EXCEPTIONS = [
     dict(fn="vlq::encode_vlq", what="Overflow:Add:i64", desc="Shl(Neg(arg2),1),1", count=1,
          reason="same precondition: (-num << 1) + 1 < 2^63 for |num| < 2^62", requires=["C03.R4"]),
     # ---- C19 only --------------------------------------------------------------------------------------------------------
-    dict(fn="utils::make_relative_path", what="Overflow:Sub:usize", desc="Vec::len(var:alloc::vec::Vec<&str>),Option::unwrap_or(Option::map(utils::find_common_prefix_of_sorted_vec(*),closure:make_relative_path::*),0)", count=1,
+    dict(fn="utils::make_relative_path", what="Overflow:Sub:usize", desc="Vec::len(var:Vec<&str>),Option::unwrap_or(Option::map(utils::find_common_prefix_of_sorted_vec(*),closure:make_relative_path::*),0)", count=1,
          reason="prefix is the length of a common prefix of the two component lists, hence <= base_path.len() (helper returns a prefix of the shortest list)", requires=["C19.R2"]),
     dict(fn="utils::make_relative_path", what="index", desc="Iterator::collect(*)[RangeFrom{start:Option::unwrap_or(Option::map(utils::find_common_prefix_of_sorted_vec(*),closure:make_relative_path::*),0)}]", count=1,
          reason="prefix <= target_path.len() for the same reason", requires=["C19.R2"]),
